@@ -546,6 +546,12 @@ class Model:
                     b.bol = True
                     b.eof = False
                     b.src = ev.get('h', -1)
+                    if b.kind == 'mem':
+                        # the scanner now reads the stream into the buffer it
+                        # allocated for the yy_scan_bytes/yy_scan_string copy
+                        b.kind = 'file'
+                        b.fill = True
+                        self.stat('mem-buffer-continued-from-yyin')
             self.stat('op-set-yyin')
         elif op == 'DESTROY':
             pass
